@@ -67,11 +67,13 @@ ASSUMPTIONS = [
     "source kind 'lazy' = RTDC_Dict holding objects with exactly the interface of the "
     "tdms image column (integer indexing only); used at depth 0 and filtered=True only, "
     "because slicing such columns is a documented rejection (NotImplementedError)",
-    "the reference for hierarchy parents is the manual mask of the model; the selection "
-    "of the exported dataset itself is the snapshot of ds.filter.all before the export",
-    "tdms sources: the 7 fixtures only, reference = event-wise integer access of the "
-    "source, at least one scalar feature requested (non-scalar columns of the fixtures "
-    "are shorter than the dataset)",
+    "the selection of every level (parents and the exported dataset) is the snapshot of "
+    "its ds.filter.all; the values come from the generated arrays, never from dclab readers",
+    "tdms sources: the 7 fixtures only, reference = event-wise integer access of a second "
+    "instance of the source read in increasing order, at least one scalar feature "
+    "requested (non-scalar columns of the fixtures are shorter than the dataset)",
+    "basins=True only for sources with a measurement identifier and without upstream "
+    "basins (C14 / C07 domains); the stored basin definitions are not asserted here",
     "features=[] and skip_checks=True with features of unequal length are not generated",
     "tdms features that the writer stores unsigned (fl?_max ...) and that hold negative "
     "values in a fixture are not requested (counted)",
